@@ -35,6 +35,8 @@ svars == <<inp, i, start, ext, cur, res, pc>>
 
 InitWith(in) ==
     /\ inp = in /\ i = 0 /\ start = 0 /\ ext = 0 /\ cur = EmptySeg /\ res = <<>> /\ pc = "scan"
+StartWith(in) ==
+    /\ inp' = in /\ i' = 0 /\ start' = 0 /\ ext' = 0 /\ cur' = EmptySeg /\ res' = <<>> /\ pc' = "scan"
 
 NextScore == ext + inp.sc[i+1]
 BreakNow  == NextScore <= Max0(cur.score - inp.bs)
